@@ -1,7 +1,7 @@
 /-
   Encoder IR, compiler correctness (10): the induction on the value, whole programs, the stack bound.
 -/
-import SonicSpec.Proofs.IrMap
+import SonicSpec.Proofs.IrCallback
 namespace SonicSpec.Ir
 open SonicSpec SonicSpec.Go SonicSpec.Enc SonicSpec.Json
 variable {o : EncOpts} {co : COpts}
@@ -69,6 +69,34 @@ theorem code_recurse_st (lib : LibCode) (tab : List GoType) (pc sp : Nat) (pv : 
 theorem code_recurse_lib (lib : LibCode) (tab : List GoType) (pc sp : Nat) (pv : Bool) (n : String) (h : tabHas tab (.lib n) = true) :
     code co lib tab pc sp pv (.lib n) = [Instr.recurse (.lib n) pv] := by rw [code, if_pos h]
 
+theorem cbPtr_false {t : GoType} (h : cbPtr t = false) (pc : Nat) : cbPtrCode t pc = none := by
+  cases t <;> try rfl
+  rename_i n
+  simp only [cbPtr] at h
+  simp only [cbPtrCode]
+  cases hk : cbKind n with
+  | none => rfl
+  | some k => rw [hk] at h; cases h
+
+theorem cbPtr_true {t : GoType} (h : cbPtr t = true) : ∃ n k, t = .lib n ∧ cbKind n = some k := by
+  cases t <;> try (cases h; done)
+  rename_i n
+  simp only [cbPtr] at h
+  cases hk : cbKind n with
+  | none => rw [hk] at h; cases h
+  | some k => exact ⟨n, k, rfl, hk⟩
+
+theorem cbValue_true {n : String} (h : cbValue n = true) : ∃ json, cbKind n = some (json, true) := by
+  unfold cbValue at h
+  cases hk : cbKind n with
+  | none => rw [hk] at h; cases h
+  | some k =>
+    obtain ⟨json, vr⟩ := k
+    rw [hk] at h
+    simp only at h
+    subst h
+    exact ⟨json, rfl⟩
+
 /-- compiler correctness on the sub-universe, by induction on the size of the VALUE (the type may be recursive) -/
 theorem code_ok (hco : 0 < co.maxInlineDepth) :
     ∀ (n : Nat) (v : GoVal), sizeOf v < n → ∀ T, Sub T = true → Conf co T v = true → CodeOK o co T v := by
@@ -126,15 +154,28 @@ theorem code_ok (hco : 0 < co.maxInlineDepth) :
         simp only [GoVal.arr.sizeOf_spec] at hn
         omega
     case ptr t =>
-      simp only [Sub] at hS
+      simp only [Sub, Bool.or_eq_true] at hS
       refine codeOK_of_nohit (code_recurse_ptr (co := co) · · · · · t) ?_
-      cases v <;> try (simp [Conf] at hC; done)
-      case nil => exact codeOK_ptr_nil t
-      case ptr w =>
-        simp only [Conf] at hC
-        refine codeOK_ptr t w (ih w ?_ t hS hC)
-        simp only [GoVal.ptr.sizeOf_spec] at hn
-        omega
+      cases hcb : cbPtr t with
+      | true =>
+        obtain ⟨nm, kk, rfl, hkk⟩ := cbPtr_true hcb
+        cases v <;> try (simp [Conf] at hC; done)
+        case nil => exact codeOK_cbPtr_nil hkk
+        case ptr w =>
+          simp only [Conf] at hC
+          exact codeOK_cbPtr hkk hC
+      | false =>
+        have hSt : Sub t = true := by
+          rcases hS with h | h
+          · exact h
+          · rw [hcb] at h; cases h
+        cases v <;> try (simp [Conf] at hC; done)
+        case nil => exact codeOK_ptr_nil t (cbPtr_false hcb)
+        case ptr w =>
+          simp only [Conf] at hC
+          refine codeOK_ptr t (cbPtr_false hcb) w (ih w ?_ t hSt hC)
+          simp only [GoVal.ptr.sizeOf_spec] at hn
+          omega
     case map k t =>
       simp only [Sub, Bool.and_eq_true] at hS
       refine codeOK_of_nohit (code_recurse_map (co := co) · · · · · k t) ?_
@@ -162,16 +203,38 @@ theorem code_ok (hco : 0 < co.maxInlineDepth) :
           simp only [GoVal.ptr.sizeOf_spec] at this
           omega
     case lib nm =>
+      simp only [Sub, Bool.or_eq_true] at hS
       refine codeOK_of_nohit (code_recurse_lib (co := co) · · · · · nm) ?_
-      cases v <;> try (simp [Conf] at hC; done)
-      case st vs =>
-        simp only [GoVal.st.sizeOf_spec] at hn
-        refine codeOK_lib hco hS hC (fun x hx t hSt hCt => ih x ?_ t hSt hCt) (fun w hw e hSe hCe => ih w ?_ e hSe hCe)
-        · have := List.sizeOf_lt_of_mem hx
-          omega
-        · have := List.sizeOf_lt_of_mem hw
-          simp only [GoVal.ptr.sizeOf_spec] at this
-          omega
+      cases hln : libNames.contains nm with
+      | false =>
+        have hcv : cbValue nm = true := by
+          rcases hS with h | h
+          · rw [hln] at h; cases h
+          · exact h
+        obtain ⟨json, hkk⟩ := cbValue_true hcv
+        exact codeOK_cbVal hkk hC
+      | true =>
+        cases v <;> try (simp [Conf] at hC; done)
+        case st vs =>
+          simp only [GoVal.st.sizeOf_spec] at hn
+          refine codeOK_lib hco hln hC (fun x hx t hSt hCt => ih x ?_ t hSt hCt) (fun w hw e hSe hCe => ih w ?_ e hSe hCe)
+          · have := List.sizeOf_lt_of_mem hx
+            omega
+          · have := List.sizeOf_lt_of_mem hw
+            simp only [GoVal.ptr.sizeOf_spec] at this
+            omega
+        case lib m =>
+          obtain ⟨fs, ks, hls, _, _, _⟩ := lib_facts hln
+          exfalso
+          have hnk : cbKind nm = none := by
+            simp [libNames] at hln
+            rcases hln with rfl | rfl <;> rfl
+          simp [Conf, cbConf] at hC
+          cases hct : callbackText nm (.lib m) with
+          | none => rw [hct] at hC; simp at hC
+          | some mm =>
+            simp [libNames] at hln
+            rcases hln with rfl | rfl <;> simp [callbackText] at hct
 
 /-! ### whole programs -/
 
